@@ -4,6 +4,7 @@ import (
 	"encoding/binary"
 	"encoding/json"
 	"fmt"
+	"os"
 	"path/filepath"
 	"sort"
 	"strconv"
@@ -23,7 +24,7 @@ func init() {
 	register(&Prop{
 		ID:    "C18",
 		Level: "model_checking",
-		Rule: "E-SEQ: breadth-first search over threaded-news histories (create bundle, create category, post with title/poster lengths 1 and 255 and bodies of 0/1/70/65000 bytes, reply, delete article, delete item, reload) issued through the real connection loop, " +
+		Rule: "E-SEQ: breadth-first search over threaded-news histories (create bundle, create category, post with title/poster lengths 1 and 255 and bodies of 0/1/70/65000 bytes, reply, delete article, delete item, creates under a taken name, reload, reload after the operator restored an older file) issued through the real connection loop, " +
 			"compared after every transition with a reference news model: get-article for every present id, list-articles decoded by a strict reference decoder, category listings of every path, and a second store freshly loaded from the YAML file; " +
 			"states deduplicated by the canonical news tree",
 		Assumptions: []string{"fresh names only for new bundles/categories; replies only to present parents; links of remaining articles after a deletion are not specified by the property and not compared"},
@@ -202,6 +203,18 @@ func (x *c18World) apply(op string) bool {
 			x.fail("delete-item/request-failed", fmt.Sprintf("%s: %v", op, r))
 		}
 		delete(x.node(path[:len(path)-1]).Kids, path[len(path)-1])
+	case "restore":
+		// the operator puts an older news file back and has the server reload it: the tree is the file's
+		// tree, nothing that is only in memory survives
+		if err := os.WriteFile(filepath.Join(x.wd.ConfigDir, "ThreadedNews.yaml"), []byte(c18InitialNews), 0644); err != nil {
+			panic(err)
+		}
+		if err := x.wd.Srv.ThreadedNewsMgr.(*mobius.ThreadedNewsYAML).Load(); err != nil {
+			x.fail("reload/news-file-does-not-load", err.Error())
+		}
+		x.root = c18InitialModel()
+		x.reloaded = true
+		return true
 	case "reload":
 		if err := x.wd.Srv.ThreadedNewsMgr.(*mobius.ThreadedNewsYAML).Load(); err != nil {
 			x.fail("reload/news-file-does-not-load", err.Error())
@@ -388,6 +401,13 @@ const c18InitialNews = `Categories:
     SubCats: {}
 `
 
+func c18InitialModel() *c18Node {
+	return &c18Node{Kids: map[string]*c18Node{
+		"B1": {Name: "B1", Kids: map[string]*c18Node{}, Arts: map[uint32]*c18Art{}},
+		"C1": {Name: "C1", Category: true, Kids: map[string]*c18Node{}, Arts: map[uint32]*c18Art{}},
+	}}
+}
+
 func c18Exec(hist []string) (res explore.SeqResult) {
 	s := seq(func() {
 		wd := world.New(world.Cfg{NewsYAML: c18InitialNews, Accounts: []world.Acct{
@@ -395,10 +415,7 @@ func c18Exec(hist []string) (res explore.SeqResult) {
 			{Login: "admin", Name: "Admin", Password: "adminpw", Access: world.AllAccess},
 		}})
 		defer wd.Close()
-		x := &c18World{wd: wd, root: &c18Node{Kids: map[string]*c18Node{
-			"B1": {Name: "B1", Kids: map[string]*c18Node{}, Arts: map[uint32]*c18Art{}},
-			"C1": {Name: "C1", Category: true, Kids: map[string]*c18Node{}, Arts: map[uint32]*c18Art{}},
-		}}}
+		x := &c18World{wd: wd, root: c18InitialModel()}
 		var r1, r2 *ref.Tx
 		x.adm, r1 = wd.Connect("10.9.9.9:999", "admin", "adminpw", "p")
 		x.adL, r2 = wd.Connect("10.9.9.8:998", "admin", "adminpw", c18LongName)
@@ -430,7 +447,7 @@ func c18Alphabet() []string {
 		"delart:C1:1", "delart:C1:2", "delart:C1:3", "delart:B1/C2:1",
 		"delitem:C1", "delitem:B1", "delitem:B1/C2", "delitem:B2",
 		"delmissing:BX/C1", "delmissing:B1/C1", "delmissing:BX/BY/C1", "delmissing:B1/C2", "delmissing:B2/C3",
-		"reload",
+		"reload", "restore",
 	}
 }
 
@@ -505,6 +522,60 @@ func c18Concurrent(sameCat bool) func() explore.SchedOutcome {
 	}
 }
 
+// c18Listers: two users ask for the category listings of two different paths at the same moment
+// (E-SCHED): each reply shows exactly the children of the path it was asked about.
+func c18Listers() explore.SchedOutcome {
+	var out explore.SchedOutcome
+	defer func(old bool) { vrt.UnlockPoints = old }(vrt.UnlockPoints)
+	vrt.UnlockPoints = true // the listing is used after the store's lock is released
+	vrt.BeginSetup()
+	news := strings.Replace(c18InitialNews, "    Name: B1\n    Articles: {}\n    SubCats: {}\n",
+		"    Name: B1\n    Articles: {}\n    SubCats:\n      X1:\n        Type: [0, 3]\n        Name: X1\n        Articles: {}\n        SubCats: {}\n      X2:\n        Type: [0, 2]\n        Name: X2\n        Articles: {}\n        SubCats: {}\n", 1)
+	wd := world.New(world.Cfg{NewsYAML: news, Accounts: []world.Acct{
+		{Login: "guest", Name: "Guest"},
+		{Login: "admin", Name: "Admin", Password: "adminpw", Access: world.AllAccess},
+	}})
+	defer wd.Close()
+	a1, r1 := wd.Connect("10.9.9.1:991", "admin", "adminpw", "p1")
+	a2, r2 := wd.Connect("10.9.9.2:992", "admin", "adminpw", "p2")
+	a3, r3 := wd.Connect("10.9.9.3:993", "admin", "adminpw", "p3")
+	if r1 == nil || r2 == nil || r3 == nil || r1.Err != 0 || r2.Err != 0 || r3.Err != 0 {
+		out.Violations = append(out.Violations, explore.SchedV{Signature: "C18/listers/setup", Detail: "logins failed"})
+		return out
+	}
+	id1 := a1.Send(ref.Tx{Type: ref.TGetNewsCatList})
+	id2 := a2.Send(ref.Tx{Type: ref.TGetNewsCatList, Fields: []ref.Fld{ref.F(ref.FNewsPath, ref.NewsPathBytes("B1"))}})
+	id3 := a3.Send(ref.Tx{Type: ref.TGetNewsCatList, Fields: []ref.Fld{ref.F(ref.FNewsPath, ref.NewsPathBytes("B1", "X2"))}})
+	vrt.EndSetup()
+	vrt.WaitQuiet()
+	names := func(c *world.Client, id uint32) string {
+		r := c.Reply(id)
+		if r == nil || r.Err != 0 {
+			return fmt.Sprintf("no listing: %v", r)
+		}
+		var got []string
+		for _, d := range r.GetAll(ref.FNewsCatListData) {
+			e, err := ref.DecodeNewsCat(d)
+			if err != nil {
+				got = append(got, "undecodable")
+				continue
+			}
+			got = append(got, fmt.Sprintf("%d:%s", e.Type, e.Name))
+		}
+		sort.Strings(got)
+		return strings.Join(got, ",")
+	}
+	g1, g2, g3 := names(a1, id1), names(a2, id2), names(a3, id3)
+	if g1 != "2:B1,3:C1" || g2 != "2:X2,3:X1" || g3 != "" {
+		out.Violations = append(out.Violations, explore.SchedV{Signature: "C18/listers/category-listing-is-not-the-children-of-its-path", Detail: fmt.Sprintf("root listed as [%s] (want 2:B1,3:C1), B1 listed as [%s] (want 2:X2,3:X1), B1/X2 listed as [%s] (want nothing)", g1, g2, g3)})
+	}
+	for _, p := range vrt.S.Panics() {
+		out.Violations = append(out.Violations, explore.SchedV{Signature: "C18/listers/panic/" + vrt.PanicSite(p), Detail: p})
+	}
+	out.Canon = g1 + " | " + g2 + " | " + g3
+	return out
+}
+
 func drain(r interface{ Read([]byte) (int, error) }) []byte {
 	var out []byte
 	buf := make([]byte, 4096)
@@ -526,6 +597,7 @@ func runC18(w *explore.Worker) {
 	for _, same := range []bool{false, true} {
 		explore.ExploreSchedules(w, explore.SchedConfig{Harness: "C18concurrent", Params: fmt.Sprint(same), Bound: bound, FreeCost: 1, MaxSteps: 20000, Suspend: true}, c18Concurrent(same))
 	}
+	explore.ExploreSchedules(w, explore.SchedConfig{Harness: "C18concurrent", Params: "listers", Bound: bound, FreeCost: 1, MaxSteps: 20000, Suspend: true}, c18Listers)
 	depth := 4
 	if w.Thorough {
 		depth = 5
@@ -536,7 +608,11 @@ func runC18(w *explore.Worker) {
 func replayC18(w *explore.Worker, raw json.RawMessage) {
 	var sr explore.SchedReplay
 	if json.Unmarshal(raw, &sr) == nil && sr.Kind == "schedule" {
-		_, out, err := explore.RunSchedule(sr.Choices, 20000, c18Concurrent(sr.Params == "true"))
+		h := c18Concurrent(sr.Params == "true")
+		if sr.Params == "listers" {
+			h = c18Listers
+		}
+		_, out, err := explore.RunSchedule(sr.Choices, 20000, h)
 		if err != nil {
 			w.Broken("replay: %v", err)
 		}
